@@ -377,7 +377,8 @@ def configs(tier):
     layouts += [[("typed", 3)], [("out", 3)], [("out", 2), ("solid", 0)],
                 [("plain", 3), ("solid", 1)]]
     if tier != "quick":
-        layouts += [[("typed", 2), ("out", 2)], [("out_notag", 3)],
+        # (two arrays of one layout must have different names)
+        layouts += [[("out_notag", 2), ("solid", 2)], [("out_notag", 3)],
                     [("solid", 3), ("plain", 2)]]
     out = []
     for lay in layouts:
